@@ -863,6 +863,7 @@ var specLibFuncs = map[string]types.Type{
 	"strings.LastIndex":     types.Typ[types.Int],
 	"time.Time.Before":      types.Typ[types.Bool],
 	"os.File.Name":          types.Typ[types.String],
+	"strings.Replace":       types.Typ[types.String],
 	"FileInfo.Name":         types.Typ[types.String],
 	"time.Time.Add":         types.Typ[types.Int64], // time.Time is modelled as an integer
 	"time.Unix":             types.Typ[types.Int64],
